@@ -55,6 +55,9 @@ func closeEnvs() {
 	for _, e := range envs {
 		e.ca.Close()
 	}
+	if raceACME != nil {
+		raceACME.Close()
+	}
 }
 
 // oldCA: root and intermediate that have existed for 90 days (the fixture's own are created "now"), so that
@@ -156,6 +159,11 @@ func (e *env) issueSSH() *sshCert {
 // ---- requests through the real handlers
 
 func (e *env) serve(h http.HandlerFunc, method, path string, body any, peer *x509.Certificate, bearer string) int {
+	code, _ := e.serveBody(h, method, path, body, peer, bearer)
+	return code
+}
+
+func (e *env) serveBody(h http.HandlerFunc, method, path string, body any, peer *x509.Certificate, bearer string) (int, []byte) {
 	var buf bytes.Buffer
 	if body != nil {
 		json.NewEncoder(&buf).Encode(body)
@@ -170,7 +178,7 @@ func (e *env) serve(h http.HandlerFunc, method, path string, body any, peer *x50
 	req = req.WithContext(authority.NewContext(req.Context(), e.ca.Auth))
 	w := httptest.NewRecorder()
 	h(w, req)
-	return w.Code
+	return w.Code, w.Body.Bytes()
 }
 
 func (e *env) revokeToken(serialAsSent, reason string) int {
@@ -250,6 +258,17 @@ func (e *env) rekeySSH(c *sshCert) int {
 	ctx := provisioner.NewContextWithMethod(authority.NewContext(context.Background(), e.ca.Auth), provisioner.SSHRekeyMethod)
 	_, err := e.ca.Auth.RekeySSH(ctx, c.crt, pub)
 	return statusOf(err, 201)
+}
+
+// the same through the real handlers: POST /1.0/ssh/renew and /1.0/ssh/rekey with a proof-of-possession token of the certificate
+func (e *env) renewSSHHandler(c *sshCert) int {
+	return e.serve(api.SSHRenew, "POST", "/1.0/ssh/renew", map[string]any{"ott": e.sshpopToken(c, "/1.0/ssh/renew")}, nil, "")
+}
+
+func (e *env) rekeySSHHandler(c *sshCert) int {
+	key := must(ecdsa.GenerateKey(elliptic.P256(), rand.Reader))
+	pub := must(ssh.NewPublicKey(&key.PublicKey))
+	return e.serve(api.SSHRekey, "POST", "/1.0/ssh/rekey", map[string]any{"ott": e.sshpopToken(c, "/1.0/ssh/rekey"), "publicKey": pub.Marshal()}, nil, "")
 }
 
 func statusOf(err error, ok int) int {
